@@ -80,7 +80,10 @@ def handleExecCheck (j : Json) : Except String Json := do
     pure ((← (a[0]!).getNat?), (← (a[1]!).getNat?), (← (a[2]!).getNat?)))
   let obs : RunObs := {
     results := results, failed := (← getBool o "failed"), exit := (← getNat o "exit"),
-    started := (← natsOf (← getArr o "started")), ended := ended, times := times }
+    started := (← natsOf (← getArr o "started")), ended := ended, times := times,
+    killed := (match o.getObjVal? "killed" with
+      | .ok (.arr a) => (natsOf a).toOption.getD []
+      | _ => []) }
   match execOracle fou plan obs with
   | none => pure (Json.mkObj [("oracle", Json.str "ok")])
   | some w => pure (Json.mkObj [("oracle", Json.str "fail"), ("why", Json.str w)])
